@@ -90,16 +90,6 @@ def unary_op(op: str, arg):
     raise RuntimeError(f"Invalid unary operation {op}")
 
 
-def _flatten(expr: sp.Basic) -> sp.Basic:
-    """Nested unevaluated sums and products as one flat (still unevaluated) sum / product"""
-    if not isinstance(expr, (sp.Add, sp.Mul)):
-        return expr
-    args: list[sp.Basic] = []
-    for arg in map(_flatten, expr.args):
-        args.extend(arg.args if isinstance(arg, type(expr)) else [arg])
-    return type(expr)(*args, evaluate=False)
-
-
 def build_expression(
     root: lark.Tree,
     symbols: dict[str, sp.Symbol] | None = None,
@@ -168,10 +158,11 @@ def build_expression(
             func = getattr(sp, funcname)
             args = [expr2symbols(c) for c in tree.children[1:]]
             if isinstance(func, type) and issubclass(func, TrigonometricFunction):
-                # sympy evaluates a periodic function by looking for multiples of pi among
-                # the terms of its argument, and expects a flat sum there. The sums built
-                # here are nested and unevaluated: sin((x + pi) + y) would become -sin(y)
-                args = [_flatten(arg) for arg in args]
+                # sympy evaluates a periodic function by looking for multiples of pi in its
+                # argument and expects the canonical (evaluated) form there. The sums and
+                # products built here are nested and unevaluated: sin((x + pi) + y) would
+                # become -sin(y) and sin(pi*pi) would become 0
+                args = [arg.doit() if arg.has(sp.pi) else arg for arg in args]
             return func(*args)
 
         if tree.data == "logicalfunc":
